@@ -234,6 +234,26 @@ HasFloat(m, v, fuel) == LET d == Deref(m, v) IN
                         IsFloatV(d) \/ (d.t = "list" /\ (fuel = 0 \/ \E k \in 1..Len(m.lists[d.id]) : HasFloat(m, m.lists[d.id][k], fuel - 1)))
 HasFn(m, v, fuel) == Opaque(m, v, fuel) \/ HasFloat(m, v, fuel)
 
+(* a binary operator on two operands (views looked through): MSLang!BinOp on the machine's own values, MSNum!Arith as soon as a  *)
+(* boxed number takes part (and for the bit operators / shifts on plain ints), text concatenation with a boxed number           *)
+VMBin(m, op, lv, rv) ==
+    LET l == Deref(m, lv) r == Deref(m, rv)
+        numeric == (l.t = "num" /\ r.t \in {"num", "int"}) \/ (r.t = "num" /\ l.t = "int")
+                   \/ (op \in {"&", "|", "xor", "^", "<<", ">>"} /\ l.t = "int" /\ r.t = "int") IN
+    IF numeric THEN
+         (LET x == NumBin(op, l, r) IN
+          IF x.ok THEN [st |-> "ok", v |-> OfNum(x.v), why |-> ""]
+          ELSE IF x.oom \/ x.why = "type" THEN [st |-> "oom", v |-> VNil, why |-> "bin_op " \o op \o " outside the tower model"]
+          ELSE [st |-> "fail", v |-> VNil, why |-> x.why])
+    ELSE IF op = "+" /\ {l.t, r.t} = {"str", "num"} THEN
+         (IF IsFloatV(l) \/ IsFloatV(r) THEN [st |-> "oom", v |-> VNil, why |-> "concatenation with a float (its text is not modelled)"]
+          ELSE [st |-> "ok", v |-> VStr(ShowV(m, l) \o ShowV(m, r)), why |-> ""])
+    ELSE IF l.t = "num" \/ r.t = "num" THEN [st |-> "oom", v |-> VNil, why |-> "bin_op " \o op \o " on " \o l.t \o "," \o r.t]
+    ELSE LET b == BinResult(m, op, lv, rv) IN
+         IF b.st.status = "type" THEN [st |-> "oom", v |-> VNil, why |-> "bin_op " \o op \o " on " \o l.t \o "," \o r.t]
+         ELSE IF b.st.status # "ok" THEN [st |-> "fail", v |-> VNil, why |-> b.st.status]
+         ELSE [st |-> "ok", v |-> b.v, why |-> ""]
+
 (* one instruction *)
 Exec1(F, m) ==
     LET a == TopA(m)
@@ -266,9 +286,10 @@ Exec1(F, m) ==
             IF n # 1 \/ ~a.cb.has \/ a1 \notin DOMAIN a.cb.m THEN FailM(m, "machine")
             ELSE [SetTop(m, Adv(PopV(a))) EXCEPT !.cells[a.cb.m[a1]] = Deref(m, TopV(a))]
       [] op = "store_skip" ->
-            IF n # 1 \/ Len(ar) < 3 \/ TopV(a).t # "bool" \/ ~IsLit(ar[3]) THEN FailM(m, "machine")
-            ELSE IF (ar[2] = "1") = TopV(a).b THEN Goto(m, a, LitVal(ar[3]))
-            ELSE BindLocal(SetTop(m, Adv(PopV(a))), a1, TopV(a))
+            \* (the operand may be a view of a list element / a field: it is looked through, and the value - not the view - is stored)
+            IF n # 1 \/ Len(ar) < 3 \/ Deref(m, TopV(a)).t # "bool" \/ ~IsLit(ar[3]) THEN FailM(m, "machine")
+            ELSE IF (ar[2] = "1") = Deref(m, TopV(a)).b THEN Goto(m, a, LitVal(ar[3]))
+            ELSE BindLocal(SetTop(m, Adv(PopV(a))), a1, Deref(m, TopV(a)))
       [] op = "load" -> LET c == Resolve(m, a, a1) IN
             IF c = 0 THEN FailM(m, "machine") ELSE SetTop(m, Adv(PushV(a, m.cells[c])))
       [] op = "load_fast" -> LET c == Local(m, a1) IN
@@ -289,32 +310,23 @@ Exec1(F, m) ==
       [] op = "bin_op" ->
             IF n < 2 THEN FailM(m, "machine")
             ELSE IF Fuzzy(Deref(m, a.ops[n - 1])) \/ Fuzzy(Deref(m, a.ops[n])) THEN OomM(m, "arithmetic on a position in an unordered list")
-            ELSE IF (Deref(m, a.ops[n - 1]).t = "num" /\ Deref(m, a.ops[n]).t \in {"num", "int"}) \/ (Deref(m, a.ops[n]).t = "num" /\ Deref(m, a.ops[n - 1]).t = "int") THEN
-                 (LET r == NumBin(a1, Deref(m, a.ops[n - 1]), Deref(m, a.ops[n])) IN
-                  IF r.ok THEN SetTop(m, Adv([a EXCEPT !.ops = <<OfNum(r.v)>>]))
-                  ELSE IF r.oom \/ r.why = "type" THEN OomM(m, "bin_op " \o a1 \o " on numbers outside the tower model")
-                  ELSE FailM(m, r.why))
-            ELSE IF a1 \in {"&", "|", "xor", "^", "<<", ">>"} /\ Deref(m, a.ops[n - 1]).t = "int" /\ Deref(m, a.ops[n]).t = "int" THEN
-                 (LET r == NumBin(a1, Deref(m, a.ops[n - 1]), Deref(m, a.ops[n])) IN      \* bit operators on int: through the tower as well
-                  IF r.ok THEN SetTop(m, Adv([a EXCEPT !.ops = <<OfNum(r.v)>>]))
-                  ELSE IF r.oom \/ r.why = "type" THEN OomM(m, "bin_op " \o a1 \o " outside the tower model") ELSE FailM(m, r.why))
-            ELSE LET r == BinResult(m, a1, a.ops[n - 1], a.ops[n]) IN
-                 IF r.st.status = "type" THEN OomM(m, "bin_op " \o a1 \o " on " \o Deref(m, a.ops[n - 1]).t \o "," \o Deref(m, a.ops[n]).t)
-                 ELSE IF r.st.status # "ok" THEN FailM(m, r.st.status)
+            ELSE LET r == VMBin(m, a1, a.ops[n - 1], a.ops[n]) IN
+                 IF r.st = "oom" THEN OomM(m, r.why)
+                 ELSE IF r.st = "fail" THEN FailM(m, r.why)
                  ELSE SetTop(m, Adv([a EXCEPT !.ops = <<r.v>>]))          \* clear_and_set_stack
       [] op = "bin_op_assign" ->
             IF Len(ar) < 2 THEN
                  (IF n < 2 \/ ~IsPtr(a.ops[n - 1]) THEN FailM(m, "machine")
                   ELSE LET p == a.ops[n - 1]
-                           r == BinResult(m, SubSeq(a1, 1, Len(a1) - 1), p, a.ops[n]) IN
-                       IF r.st.status = "type" THEN OomM(m, "bin_op_assign " \o a1)
-                       ELSE IF r.st.status # "ok" THEN FailM(m, r.st.status)
+                           r == VMBin(m, SubSeq(a1, 1, Len(a1) - 1), p, a.ops[n]) IN
+                       IF r.st = "oom" THEN OomM(m, "bin_op_assign " \o a1 \o ": " \o r.why)
+                       ELSE IF r.st = "fail" THEN FailM(m, r.why)
                        ELSE PtrSet(SetTop(m, Adv([a EXCEPT !.ops = Append(SubSeq(a.ops, 1, n - 2), r.v)])), p, r.v))
             ELSE LET c == Resolve(m, a, ar[2]) IN
                  IF c = 0 \/ n = 0 THEN FailM(m, "machine")
-                 ELSE LET r == BinResult(m, SubSeq(a1, 1, Len(a1) - 1), m.cells[c], TopV(a)) IN
-                      IF r.st.status = "type" THEN OomM(m, "bin_op_assign " \o a1)
-                      ELSE IF r.st.status # "ok" THEN FailM(m, r.st.status)
+                 ELSE LET r == VMBin(m, SubSeq(a1, 1, Len(a1) - 1), m.cells[c], TopV(a)) IN
+                      IF r.st = "oom" THEN OomM(m, "bin_op_assign " \o a1 \o ": " \o r.why)
+                      ELSE IF r.st = "fail" THEN FailM(m, r.why)
                       ELSE [SetTop(m, Adv([a EXCEPT !.ops[n] = r.v])) EXCEPT !.cells[c] = r.v]
       [] op \in {"equ", "neq"} ->
             IF n # 2 THEN FailM(m, "machine")
@@ -342,9 +354,9 @@ Exec1(F, m) ==
             IF n = 0 \/ Deref(m, TopV(a)).t # "bool" THEN FailM(m, "machine")
             ELSE SetTop(m, Adv([a EXCEPT !.ops[n] = VBool(~Deref(m, TopV(a)).b)]))
       [] op \in {"if_stmt", "while_loop"} ->
-            IF n = 0 \/ TopV(a).t # "bool" \/ ~IsLit(a1) THEN FailM(m, "machine")
+            IF n = 0 \/ Deref(m, TopV(a)).t # "bool" \/ ~IsLit(a1) THEN FailM(m, "machine")
             ELSE LET a2 == [a EXCEPT !.ops = <<>>] IN
-                 IF TopV(a).b THEN PushScope(m, a2) ELSE Goto(m, a2, LitVal(a1))
+                 IF Deref(m, TopV(a)).b THEN PushScope(m, a2) ELSE Goto(m, a2, LitVal(a1))
       [] op = "else_stmt" -> PushScope(m, a)
       [] op = "jmp" -> IF IsLit(a1) THEN Goto(m, a, LitVal(a1)) ELSE FailM(m, "machine")
       [] op = "jmp_pop" ->
